@@ -757,6 +757,25 @@ func classifyLoop(w *World, fn *ssa.Function, h *ssa.BasicBlock) (kind string, o
 	}
 	// counter loop: header If compares a phi with a bound
 	iff, isIf := h.Instrs[len(h.Instrs)-1].(*ssa.If)
+	// parent walk: for p := n.Parent; p != nil; p = p.Parent - the loop form of the structural recursion over the
+	// parent chain (nodes are allocated at registration, Parent chains are finite)
+	if isIf {
+		if bo, ok := iff.Cond.(*ssa.BinOp); ok && bo.Op == token.NEQ && isNilConst(bo.Y) {
+			if phi, isPhi := bo.X.(*ssa.Phi); isPhi && phi.Block() == h && isTreePtr(phi.Type()) {
+				walk := true
+				for i, e := range phi.Edges {
+					if h.Dominates(h.Preds[i]) {
+						if b, ok := loadOfFieldNamed(e, "Parent"); !ok || b != ssa.Value(phi) {
+							walk = false
+						}
+					}
+				}
+				if walk {
+					return "parent-walk", true, "every cycle moves to the node's Parent and the loop is left at the root (Parent chains are finite)"
+				}
+			}
+		}
+	}
 	if isIf {
 		if bo, ok := iff.Cond.(*ssa.BinOp); ok {
 			phi, isPhi := bo.X.(*ssa.Phi)
@@ -789,6 +808,14 @@ func classifyLoop(w *World, fn *ssa.Function, h *ssa.BasicBlock) (kind string, o
 					}
 					return "counter", false, "inclusive bound `j <= hi` with an unbounded hi: for hi == MaxInt the counter wraps around and the loop never ends"
 				}
+			}
+		}
+	}
+	// consuming loop: for len(rest) > 0 { …; rest = rest[1:] }: every cycle shortens the slice by one element
+	if isIf {
+		if bo, ok := iff.Cond.(*ssa.BinOp); ok && (bo.Op == token.GTR || bo.Op == token.NEQ) {
+			if consumingLoopCollection(h, bo) != nil {
+				return "consuming", true, "every cycle drops the first element of the slice and the loop is left when it is empty"
 			}
 		}
 	}
